@@ -144,10 +144,11 @@ Definition unconnected_message (ucsend : bool) (svc : bytes) (cls inst : lval) (
 Definition encode_route_path (segs : list seg) : res bytes :=
   epath_encode padded_PADDED_EPATH segs true true.       (* PADDED_EPATH.encode(x, length=True, pad_length=True) *)
 
-(* the value of _kwargs["route_path"] ([] = the key is not set: the packet's default b"") *)
-Definition resolve_route (d : drv) (r : route_arg) : res bytes :=
+(* the value of _kwargs["route_path"] ([] = the key is not set: the packet's default b"").
+   route_path=True means the connection's route, and only inside an Unconnected Send *)
+Definition resolve_route (d : drv) (ucsend : bool) (r : route_arg) : res bytes :=
   match r with
-  | RTrue => encode_route_path (d_cip_path d)
+  | RTrue => if ucsend then encode_route_path (d_cip_path d) else Ok []
   | RStr s => let* segs := ConnPath.parse_cip_route s false in encode_route_path segs
   | RBytes b => Ok b
   | RFalse => Ok []
@@ -175,7 +176,7 @@ Definition gm_request (d : drv) (a : gm_args) : drv * outcome bytes :=
        build_request cmd at_ mt (Some (d_cid d)) d msg))
   else
     (d, of_res
-      (let* route := resolve_route d (a_route a) in
+      (let* route := resolve_route d (a_ucsend a) (a_route a) in
        let* svc := service_bytes (a_service a) in
        let* msg := unconnected_message (a_ucsend a) svc (a_class a) (a_instance a) (a_attribute a) (a_data a) route in
        let* cmd := enc_command "send_rr_data" in
